@@ -20,12 +20,13 @@ def isPlainDict : Val → Bool
   | .dict .plain _ => true
   | _ => false
 
-/-- `n0dict._find(elem, toks, elem, rl, found)` called from `n0list._find`: `self` is the element -/
-def dispatchD (fuel : Nat) (root : Val) (elem : PRef) (_ev : Val) (toks : List Str) (rl : Bool) (found : Str) :
+/-- `n0dict._find(self, toks, elem, rl, found)` called from `n0list._find`: `self` stays the list the search started
+from (fix C06-f; it was the element, so that '..' resolved the text `found`, which starts at the root, inside the element) -/
+def dispatchD (fuel : Nat) (root : Val) (sp : Pos) (elem : PRef) (_ev : Val) (toks : List Str) (rl : Bool) (found : Str) :
     PyM (Val × Res) :=
-  -- `n0dict._find` recurses through the class, so a plain dict element works as `self`
+  -- `n0dict._find` recurses through the class, so any container works as `self`
   match refPos elem with
-  | some p => findD fuel root p false true toks elem rl found
+  | some _ => findD fuel root sp false true toks elem rl found
   | Option.none => .error .Unsupported
 
 /-- `n0list._find` -/
@@ -48,11 +49,12 @@ def findL (fuel : Nat) (root : Val) (sp : Pos) (toks : List Str) (par : PRef) (r
   match splitNameIndex tok with
   | .error e => .error e
   | .ok (name, idx) =>
-  if !name.isEmpty then
-    .ok (root, { parent := par, nameIdx := Option.none, value := Val.none, found := found, notFound := some (tok :: rest) })
+  -- a name or a condition applied to the list: `n0dict._find` supplies the skipped `[*]` (fix C06-f; a name was NOT FOUND,
+  -- a condition IndexError)
+  if !name.isEmpty then findD fuel root sp false true (tok :: rest) par rl found
   else match idx with
   | .none => .error .IndexError
-  | .cond .. => .error .IndexError
+  | .cond .. => findD fuel root sp false true (tok :: rest) par rl found
   | .str s =>
     if s = ['*'] then
       -- for i, next_parent_node in enumerate(parent_node)
@@ -79,7 +81,7 @@ def findL (fuel : Nat) (root : Val) (sp : Pos) (toks : List Str) (par : PRef) (r
             let eref := childRef root par (.idx i)
             let f' := found ++ bracket (natStr i)
             let sub : PyM (Val × Res) := match it with
-              | .dict .. => dispatchD fuel root eref it rest rl f'
+              | .dict .. => dispatchD fuel root sp eref it rest rl f'
               | .list .. => findL fuel root sp rest eref rl f'
               | _ => .error .TypeError
             match sub with
@@ -111,7 +113,7 @@ def findL (fuel : Nat) (root : Val) (sp : Pos) (toks : List Str) (par : PRef) (r
                 let eref := childRef root par' (.idx n)
                 let f' := found ++ bracket (intStr i)
                 match it with
-                | .dict .. => dispatchD fuel root eref it rest rl f'
+                | .dict .. => dispatchD fuel root sp eref it rest rl f'
                 | .list .. => findL fuel root sp rest eref rl f'
                 | _ => .error .TypeError
 
@@ -474,8 +476,12 @@ def isEmptyDict : Val → Bool
   | .dict _ [] => true
   | _ => false
 
-/-- token list of `delete` (after the repair: the same normalisation as lookup) -/
-def deleteTokens (xp : Str) : List Str := tokenize xp
+/-- `if xpath.startswith('?'): xpath = xpath[1:]` of `delete` and `pop` (fix C05-c): the mark "do not raise for a miss"
+is not a part of the path, as in `_get` and `__setitem__` -/
+def stripQ (xp : Str) : Str := if startsWith xp ['?'] then xp.drop 1 else xp
+
+/-- token list of `delete` (after the repairs: without a leading '?', the same normalisation as lookup) -/
+def deleteTokens (xp : Str) : List Str := tokenize (stripQ xp)
 
 /-- the `for i, last_xpath_index in enumerate(range(len(xpath_list), 0, -1))` loop of `delete`:
 `k` is the length of the prefix looked up next -/
@@ -505,12 +511,13 @@ def delete (fuel : Nat) (root : Val) (xp : Str) (recursively : Bool) : Val × Py
 
 /-- `n0dict__.pop(xpath, if_not_found, recursively)`: value and new tree -/
 def pop (fuel : Nat) (root : Val) (xp : Str) (dflt : Val) (recursively : Bool) : PyM (Val × Val) :=
-  match getItem fuel root xp with
+  -- a leading '?' is dropped first (fix C05-c): `pop` never raises for a miss, `dflt` is the answer (not the '' of `d['?…']`)
+  match getItem fuel root (stripQ xp) with
   | (_, .error .OutOfFuel) => .error .OutOfFuel
   | (_, .error .Unsupported) => .error .Unsupported
   | (root, .error _) => .ok (root, dflt)
   | (root, .ok v) =>
-    match delete fuel root xp recursively with
+    match delete fuel root (stripQ xp) recursively with
     | (_, .error .OutOfFuel) => .error .OutOfFuel
     | (_, .error .Unsupported) => .error .Unsupported
     | (root', _) => .ok (root', v)     -- bare `except: pass`: the value is returned whatever delete did
